@@ -680,7 +680,11 @@ def process_fn(tl, i, d, arg, out, unit):
     for k, a, ls in sections:
         if k == 'name':
             qual = a
-    if getattr(out, 'canary', False):
+    out.fn_counter = getattr(out, 'fn_counter', 0) + 1
+    can = getattr(out, 'canary', False)
+    if isinstance(can, tuple):
+        can = (out.fn_counter % can[1]) == can[0]
+    if can:
         # vacuity guard build: `assert(false)` must be refuted at the top of the body and of every annotated loop
         inserts.append((body.index('{') + 1, '\nassert(false); // CANARY %s/pre\n' % qual, 'canary'))
         for k, a, ls in sections:
@@ -748,7 +752,7 @@ def process_fn(tl, i, d, arg, out, unit):
             reg['src_line'] = body_src_line + consumed_src_nl
             consumed_src_nl += full[a:b].count('\n')
         out.map.append(reg)
-    if getattr(out, 'canary', False):
+    if can:
         if not hasattr(out, 'canaries'):
             out.canaries = []
         for ln in range(first_line, len(out.lines) + 1):
